@@ -3,6 +3,7 @@ use std::io::{self, BufRead, Write};
 
 mod heap;
 mod json;
+mod life;
 mod modl;
 mod num;
 mod orders;
@@ -20,6 +21,7 @@ fn main() {
     let f: fn(&str) -> String = match model {
         "path" => path::line,
         "heap" => heap::line,
+        "life" => life::line,
         "orders" => orders::line,
         "mod" => modl::line,
         "pos" => pos::line,
